@@ -36,6 +36,8 @@ import (
 	ethcmn "github.com/ethereum/go-ethereum/common"
 	ethtypes "github.com/ethereum/go-ethereum/core/types"
 	ethcrypto "github.com/ethereum/go-ethereum/crypto"
+	tmed "github.com/tendermint/tendermint/crypto/ed25519"
+	tmsecp "github.com/tendermint/tendermint/crypto/secp256k1"
 )
 
 // buckets (the numbers are shared with coq/theories/Ledger.v)
@@ -596,15 +598,53 @@ func c02SignedBy(tx *action.SignedTx, chainID string) (out []string) {
 	}
 	raw := tx.RawBytes()
 	for _, s := range tx.Signatures {
-		h, err := s.Signer.GetHandler()
-		if err != nil {
-			continue
-		}
-		if h.VerifyBytes(raw, s.Signed) {
-			out = append(out, h.Address().String())
+		if a, ok := c02IndependentSigner(s, raw); ok {
+			out = append(out, a)
 		}
 	}
 	return out
+}
+
+// c02IndependentSigner decides "this account signed these bytes" WITHOUT the key handlers of the code under verification
+// (data/keys): the reference implementations are called directly, and the account of a key is derived here.
+//   ed25519   : tendermint crypto/ed25519 - address = first 20 bytes of sha256(key)
+//   secp256k1 : tendermint crypto/secp256k1 - address = ripemd160(sha256(compressed key))
+//   ethsecp   : go-ethereum - address = keccak256(uncompressed key)[12:], signature R||S over the 32-byte message
+//   btcecsecp : a Bitcoin witness key has NO account on this chain (PublicKeyBTCEC.Address() is nil on the unchanged tree):
+//               it gives authority to nobody
+func c02IndependentSigner(s action.Signature, msg []byte) (string, bool) {
+	switch s.Signer.KeyType {
+	case keys.ED25519:
+		if len(s.Signer.Data) != tmed.PubKeyEd25519Size {
+			return "", false
+		}
+		var k tmed.PubKeyEd25519
+		copy(k[:], s.Signer.Data)
+		if !k.VerifyBytes(msg, s.Signed) {
+			return "", false
+		}
+		return keys.Address(k.Address().Bytes()).String(), true
+	case keys.SECP256K1:
+		if len(s.Signer.Data) != tmsecp.PubKeySecp256k1Size {
+			return "", false
+		}
+		var k tmsecp.PubKeySecp256k1
+		copy(k[:], s.Signer.Data)
+		if !k.VerifyBytes(msg, s.Signed) {
+			return "", false
+		}
+		return keys.Address(k.Address().Bytes()).String(), true
+	case keys.ETHSECP:
+		pk, err := ethcrypto.DecompressPubkey(s.Signer.Data)
+		if err != nil || len(s.Signed) < 64 {
+			return "", false
+		}
+		if !ethcrypto.VerifySignature(ethcrypto.CompressPubkey(pk), msg, s.Signed[:64]) {
+			return "", false
+		}
+		return keys.Address(ethcrypto.PubkeyToAddress(*pk).Bytes()).String(), true
+	}
+	return "", false
 }
 
 func c02Z(s string) string {
